@@ -217,7 +217,7 @@ def Op.isInsertion : Op → Bool
   | .mInsert .. | .mInsertHint .. | .mInsertRef .. | .mInsertMap .. => true
   | .hInsert .. | .hAppendRef .. => true
   | .sInsert .. | .sAppendRef .. | .sAppendSet .. => true
-  | .pAppend .. | .qAppend .. => true
+  | .pAppend .. | .qAppend .. | .qInsert .. => true
   | _ => false
 
 theorem compile_puts {st : State} {op : Op} {ms : List Micro} (hp : op.isInsertion = true)
